@@ -47,9 +47,21 @@ def predict_sign(cfg, g, tol=1e-6, q0=None):
     gi = 'FMT'.index(g)
     out, checked = [], 0
     n = q0.nphi
+    # isolated round-off flips of the root selection (see below) also move the scalar minimum when they happen at the minimising grid point: the scalar is
+    # judged through the profile in that case
+    rs_flips = 0
+    try:
+        pv, pb = a0['r_singularity_vs_varphi'], a1['r_singularity_vs_varphi']
+        pb = rev(pb) if g == 'T' else pb
+        if pv.shape == pb.shape == (n,) and np.all(np.isfinite(pv)) and np.all(np.isfinite(pb)):
+            rs_flips = int(np.sum(np.abs(pb - pv) / max(float(np.max(np.abs(pv))), 1e-300) > tol))
+    except Exception:
+        pass
     for k, v in a0.items():
         sg = SIGNS.get(k)
         if k in SKIP or sg is None or sg[gi] is None or k in COEF:
+            continue
+        if k in ('r_singularity', 'inv_r_singularity') and np.ndim(v) == 0 and n > 10 and 0 < rs_flips <= 2:
             continue
         if k not in a1 or a1[k].shape != v.shape:
             out.append(dict(key='%s:%s' % (g, k), what='attribute %s missing or reshaped under %s' % (k, g)))
